@@ -91,7 +91,7 @@ pub proof fn fact_item_rules_inspections(items: Vec<Box<dyn SupplyChainItem>>, l
 //@include contracts/get_summary_link.rs
 //@end
 
-//@extract src/verifylib.rs fn:in_toto_verify props=C01,C06,C08,C15,C14
+//@extract src/verifylib.rs fn:in_toto_verify props=C01,C02,C03,C06,C07,C08,C15,C14
 //@subst D4 /let steps = layout\s*\.steps\s*\.iter\(\)\s*\.map\(\|step\| Box::new\(step\.clone\(\)\) as Box<dyn SupplyChainItem>\)\s*\.collect\(\);/ => let steps = boxed_steps(&layout.steps);
 //@subst D4 /let inspects = layout\s*\.inspect\s*\.iter\(\)\s*\.map\(\|step\| Box::new\(step\.clone\(\)\) as Box<dyn SupplyChainItem>\)\s*\.collect\(\);/ => let inspects = boxed_inspections(&layout.inspect);
 //@subst D17 /reduced_link_files\.extend\(inspection_link_files\);/ => map_extend(&mut reduced_link_files, inspection_link_files);
